@@ -294,6 +294,24 @@ def method_call(eng, node, st, preargs=None):
                 base.fn = lambda j, old=old, v0=v0: vite(j == 0, v0, old(j - 1))
             base.n = base.n + 1
             return NONE
+        if mname == "popleft" and getattr(base, "is_deque", False):
+            eng.emit("pop-nonempty", st, base.n > 0)
+            old = base.fn
+            first = old(z3.IntVal(0))
+            named = getattr(eng.contract.cls, "named_appends", False) if eng.contract is not None else False
+            if named and not eng.concrete and isinstance(first, IntV):
+                # NAMED POPLEFT: new(j) = old(j+1), stated with triggers in both directions
+                new = fresh_fun("popl", z3.IntSort(), z3.IntSort())
+                m = fresh("pm")
+                st.assume(z3.ForAll([m], z3.Implies(m >= 0, new(m) == Z(old(m + 1))), patterns=[new(m)], qid="named-popleft"))
+                om = Z(old(m))
+                if dsl._pat_ok(om):
+                    st.assume(z3.ForAll([m], z3.Implies(m >= 1, om == new(m - 1)), patterns=[om], qid="named-popleft-back"))
+                base.fn = lambda j, new=new: IntV(new(j))
+            else:
+                base.fn = lambda j, old=old: old(j + 1)
+            base.n = base.n - 1
+            return first
         if mname == "rotate" and getattr(base, "is_deque", False):
             k_ = args[0].concrete() if args and isinstance(args[0], IntV) else (args[0] if args else 1)
             if k_ not in (1, -1):
